@@ -4,7 +4,7 @@ from common import *
 from sighash_common import *
 
 PID = "C06"
-THEOREMS = ["C06_normalise", "C06_low_s", "C06_bip66", "C06_low_r", "C06_order"]
+THEOREMS = ["C06_normalise", "C06_low_s", "C06_bip66", "C06_low_r", "C06_order", "C06_low_s_valid"]
 TECHNIQUE = "Coq proof (DER normaliser = strict DER of (r, min(s, n-s)); BIP66 checker accepts; grinding loop invariant) + stubbed-signer correspondence over (r, s) classes and real signing checked by libsecp256k1"
 RULE = ("normaliser driven through a stub signer returning chosen DER bytes for every (r, s) class of the quantifier (s just below/above n/2, "
         "s with the high bit set, n-s with 1..3 leading zero bytes or a top-bit-set first byte, short r, high-R first attempts), every hash "
@@ -61,6 +61,10 @@ def cases(tier, rng):
         hi = [der(rng.getrandbits(255) | (1 << 255), rng.randrange(1, N)).hex() for _ in range(rng.choice([1, 2, 3]))]
         r, s = rng.getrandbits(255) | 1, rng.randrange(1, N)
         yield {"k": "stub", "sigs": hi + [der(r, s).hex()], "ht": rng.choice([1, 0x83]), "r": r, "s": s}
+    for nhi in (7, 8, 9, 12, 20):
+        hi = [der(rng.getrandbits(255) | (1 << 255), rng.randrange(1, N)).hex() for _ in range(nhi)]
+        r, s = rng.getrandbits(255) | 1, rng.randrange(1, N)
+        yield {"k": "stub", "sigs": hi + [der(r, s).hex()], "ht": 1, "r": r, "s": s}
     # real signing
     n = 250 if tier == "quick" else 6000
     for j in range(n):
